@@ -158,6 +158,8 @@ pub struct EnumCase {
     pub max_schedules: u32,
     /// restrict to one schedule (set in shrunk replays)
     pub only: Option<(Vec<u8>, Vec<u16>)>,
+    #[serde(default)]
+    pub only_switch: Option<(u8, Vec<(u16, u8)>)>,
 }
 
 fn perms(n: usize) -> Vec<Vec<u8>> {
@@ -199,6 +201,19 @@ pub fn enum_test<'a>(part: &'a E3Part, edges: &'a Mutex<BTreeSet<(u8, u8, &'stat
             run(prio, preempt)?;
             return Ok(total);
         }
+        let mut run_sw = |start: u8, switches: &Vec<(u16, u8)>, total: &mut CaseMeta| -> R<u16> {
+            let case = SchedCase { prog: ec.prog.clone(), mode: sched::Mode::Switch { start, switches: switches.clone(), all_points: part.lenses.deadlock }, choices: vec![] };
+            let m = one(&case).map_err(|f| Fail::new(f.sig, format!("schedule start=T{start} switches={switches:?}: {}", f.detail)))?;
+            total.evals += 1;
+            total.nontrivial.extend(m.nontrivial);
+            total.classes.extend(m.classes);
+            Ok(m.counters.iter().find(|(k, _)| k == "arrivals").map(|(_, v)| *v as u16).unwrap_or(0))
+        };
+        if let Some((start, switches)) = &ec.only_switch {
+            let mut t = CaseMeta::default();
+            run_sw(*start, switches, &mut t)?;
+            return Ok(t);
+        }
         let mut plist = perms(nt);
         if plist.len() > 6 {
             plist.truncate(6);
@@ -216,7 +231,7 @@ pub fn enum_test<'a>(part: &'a E3Part, edges: &'a Mutex<BTreeSet<(u8, u8, &'stat
                 }
             }
         }
-        let max = ec.max_schedules as usize;
+        let max = (ec.max_schedules as usize / 2).max(1);
         let stride = (scheds.len() + max - 1) / max.max(1);
         for (idx, (prio, preempt)) in scheds.iter().enumerate() {
             if stride > 1 && idx % stride != (hash_of_prog(&ec.prog) as usize) % stride {
@@ -224,6 +239,39 @@ pub fn enum_test<'a>(part: &'a E3Part, edges: &'a Mutex<BTreeSet<(u8, u8, &'stat
             }
             run(prio, preempt)?;
         }
+        drop(run);
+        // context-switch-bounded part: every start thread x every <=2 explicit switches (arrival -> target thread)
+        let mut sw: Vec<(u8, Vec<(u16, u8)>)> = Vec::new();
+        let mut total2 = CaseMeta::default();
+        for start in 0..nt as u8 {
+            let m = run_sw(start, &vec![], &mut total2)?.min(40);
+            for i in 0..m {
+                for t in 0..nt as u8 {
+                    sw.push((start, vec![(i, t)]));
+                }
+            }
+            for i in 0..m {
+                for j in (i + 1)..m {
+                    for t1 in 0..nt as u8 {
+                        for t2 in 0..nt as u8 {
+                            if t1 != t2 {
+                                sw.push((start, vec![(i, t1), (j, t2)]));
+                            }
+                        }
+                    }
+                }
+            }
+        }
+        let stride = (sw.len() + max - 1) / max.max(1);
+        for (idx, (start, switches)) in sw.iter().enumerate() {
+            if stride > 1 && idx % stride != (hash_of_prog(&ec.prog) as usize / 7) % stride {
+                continue;
+            }
+            run_sw(*start, switches, &mut total2)?;
+        }
+        total.evals += total2.evals;
+        total.nontrivial.extend(total2.nontrivial);
+        total.classes.extend(total2.classes);
         total.class("enumerated_program");
         Ok(total)
     }
@@ -244,11 +292,11 @@ pub fn run_e3_part(ctx: &Ctx, acc: &Mutex<Acc>, part: &E3Part) -> Option<Violati
         None => {
             // systematic part: generated programs x enumerated <=2-preemption schedules
             let progs = ctx.tier.scale((part.quick_cases / 40).max(3), 10);
-            let max_schedules = if ctx.tier == Tier::Thorough { 2000 } else { 150 };
+            let max_schedules = if ctx.tier == Tier::Thorough { 3000 } else { 240 };
             let et = enum_test(part, &edges);
             campaign(ctx, acc, &format!("{}-enum", part.name), "E3E", progs, 40, |_shard| {
                 use proptest::strategy::Strategy;
-                gen::prog(&part.bias).prop_map(move |prog| EnumCase { prog, max_schedules, only: None })
+                gen::prog(&part.bias).prop_map(move |prog| EnumCase { prog, max_schedules, only: None, only_switch: None })
             }, et)
         }
     };
